@@ -236,6 +236,34 @@ HARNESS(deep_split_get) {
   qstate();
   WITNESS();
 }
+// a two-child node collapses onto an inner child that was created by a LEAF SPLIT: such a child's prefix word still carries the bytes of its first key
+// beyond the prefix length (a child created by a prefix cut does not), so the merge must mask them (seed C01d).  Concrete prelude, ONE symbolic get.
+template <unsigned CASE> static void lsplit_collapse() {
+  static db_t d;
+  olc_thread_init();
+  static const std::uint64_t cs[3][4] = {
+    {0x0200000000000000ULL, 0x0100000000000002ULL, 0x0100000000010000ULL, 0},                           // child prefix 00 00 00 00, stale bytes 00 00 02
+    {0x0200000000000000ULL, 0x0111223344556677ULL, 0x0111223399000000ULL, 0},                           // child prefix 11 22 33, stale bytes 44 55 66 77
+    {0xFF00000000000000ULL, 0x0111220200000000ULL, 0x0111220133445566ULL, 0x0111220133449900ULL}};      // the collapsing node sits below the root and has a prefix of its own
+  const unsigned n = CASE == 2 ? 4 : 3;
+  const unsigned del = CASE == 2 ? 1 : 0;
+  for (unsigned i = 0; i < n; i++) { std::uint8_t v = static_cast<std::uint8_t>(i + 1); PROP(d.insert(cs[CASE][i], vv(&v, 1)), "C01: prelude insert of a fresh key succeeds"); }
+  PROP(d.remove(cs[CASE][del]), "C01: prelude remove of a present key succeeds");
+  const std::uint64_t k = in_u64();
+  int idx = -1; for (unsigned i = 0; i < n; i++) if (i != del && cs[CASE][i] == k) idx = static_cast<int>(i);
+  got g = do_get(d, k);
+  PROP(g.found == (idx >= 0), "C01: get finds a key iff it was inserted and not removed (after a collapse onto an inner node created by a leaf split)");
+  if (g.found) PROP(g.size == 1 && g.b[0] == static_cast<std::uint8_t>(idx + 1), "C01: get yields the bytes of the insert that created the entry");
+  for (unsigned i = 0; i < n; i++) if (i != del) { PROP(!d.insert(cs[CASE][i], vv(nullptr, 0)), "C01: insert of a present key fails (after the collapse)"); }
+  for (unsigned i = 0; i < n; i++) if (i != del) { PROP(d.remove(cs[CASE][i]), "C01: remove of a present key succeeds (after the collapse)"); }
+  PROP(d.empty(), "C01: empty() once every entry has been removed");
+  OBSERVE(g.found); OBSERVE(g.b[0]);
+  qstate();
+  WITNESS();
+}
+HARNESS(lsplit_collapse_0) { lsplit_collapse<0>(); }
+HARNESS(lsplit_collapse_1) { lsplit_collapse<1>(); }
+HARNESS(lsplit_collapse_2) { lsplit_collapse<2>(); }
 // big nodes whose children sit at the boundary key bytes (0x00, 0x01, 0x7F, 0x80, 0x81, 0xFE, 0xFF: sign, sentinel and SIMD-lane edges), then ONE
 // remove of a boundary key (constant per entry; 02 = absent), then a get of that key and of a second key symbolic in the child-selecting byte
 // key bytes in ASCENDING order (inserting in another order did not fold: no verdict in 900 s): the seven boundary bytes plus fillers 4+5j
